@@ -39,13 +39,16 @@ CONSTRAINTS = ['amount > -100000', 'amount < 100000', 'year >= 2024', 'month >= 
 
 def gen_c09_file(rnd):
     D = rnd.sample(WORDS, rnd.choice([2, 3]))
+    if rnd.random() < 0.25:        # pattern text containing the OTHER quote character
+        D[rnd.randrange(len(D))] = rnd.choice(["JOE'S", "MCDONALD'S", 'SIZE"L', "O'HARE"])
     rules = []
+    qof = lambda w: '"' if "'" in w else ("'" if '"' in w else rnd.choice(['"', '"', '"', "'"]))     # a quote the word does not contain
     for i in range(rnd.choice([2, 3, 3, 4, 4, 5, 6, 8])):
         atoms = []
         for _ in range(rnd.choice([1, 1, 2, 3])):
             w = rnd.choice(D)
             k = rnd.random()
-            q = "'" if rnd.random() < 0.2 else '"'
+            q = qof(w)
             if k < 0.4:
                 atoms.append(f'contains({q}{w}{q})')
             elif k < 0.55:
@@ -57,7 +60,7 @@ def gen_c09_file(rnd):
             elif k < 0.9:
                 atoms.append(f'normalized({q}{w}{q})')
             else:
-                atoms.append(rnd.choice([f'{q}{w}{q} in description', f'startswith({q}{D[0]}{q})', gen_atom(rnd, [])]))
+                atoms.append(rnd.choice([f'{q}{w}{q} in description', 'startswith({0}{1}{0})'.format(qof(D[0]), D[0]), gen_atom(rnd, [])]))
         atoms += rnd.sample(CONSTRAINTS, rnd.choice([0, 0, 1, 1, 2]))
         r = {'name': f'R{i}', 'match': ' and '.join(atoms), 'category': '', 'subcategory': '', 'merchant': '', 'tags': gen_tags(rnd),
              'priority': rnd.choice([None, None, None, 50, 60, 40]), 'lets': [], 'fields': []}
@@ -67,6 +70,8 @@ def gen_c09_file(rnd):
             r['subcategory'] = rnd.choice(SUBS) + str(i)
         if rnd.random() < 0.2:
             r['merchant'] = f'Mer{i}'
+        if rules and rnd.random() < 0.25:       # several blocks under one [Name] (same or different category)
+            r['name'] = rnd.choice(rules)['name']
         if rules and rnd.random() < 0.25:       # an exact tie: same expression text and priority as an earlier rule
             src = rnd.choice(rules)
             r['match'], r['priority'] = src['match'], src['priority']
@@ -93,6 +98,33 @@ def gen_cases(seed, tier):
                 t['d'] = ' '.join(rnd.sample(D, len(D))) + rnd.choice(['', ' 1234', ' #9'])
                 txns.append(t)
         cases.append({'kind': 'rules', 'file': f, 'txns': txns})
+    # corpus: pattern text containing the other quote character, with a competitor tied on (priority, patterns, kinds) whose
+    # length lies between the length up to the quote and the full length; both quote styles; every order
+    blk = lambda n, m, c, s_='', tags=None, prio=None: {'name': n, 'match': m, 'category': c, 'subcategory': s_, 'merchant': '',
+                                                         'tags': tags or [], 'priority': prio, 'lets': [], 'fields': []}
+    tx = lambda d: {'d': d, 'a': 31334, 'date': '2025-01-15', 'field': None, 'source': 'Amex', 'location': None}
+    for a, b, d in (('contains("MCDONALD\'S")', 'contains("SEATTLE W")', "MCDONALD'S F12345 SEATTLE WA"),
+                    ("contains('SIZE\"L TEE')", "contains('SHOP 12')", 'SIZE"L TEE SHOP 123'),
+                    ('regex("TRADER JOE\'S") and amount > 5', 'regex("TRADER J.*#") and amount > 5', "TRADER JOE'S #552"),
+                    ('contains("O\'HARE") and contains("ORD")', 'contains("AIRPORT") and contains("OR")', "O'HARE AIRPORT ORD")):
+        for order in ((0, 1), (1, 0)):
+            rs = [blk('Quoted', a, 'Food', 'Fast Food'), blk('Generic', b, 'Travel', 'Misc')]
+            cases.append({'kind': 'rules', 'file': {'vars': [], 'tfs': [], 'rules': [rs[i] for i in order]}, 'txns': [tx(d)]})
+    # corpus: several blocks under one [Name]; the more specific one later / earlier; same and different categories; a
+    # same-named tag-only block in between
+    for names in (('Costco', 'Big Spend', 'Costco'), ('Costco', 'Costco', 'Costco'), ('A', 'Costco', 'Costco')):
+        for cats in (('Shopping', 'Transport'), ('Shopping', 'Shopping')):
+            rs = [blk(names[0], 'contains("COSTCO")', cats[0], 'Warehouse', ['bulk']),
+                  blk(names[1], 'amount > 40', '', '', ['large']),
+                  blk(names[2], 'contains("COSTCO") and contains("GAS")', cats[1], 'Fuel', ['car'])]
+            for order in ((0, 1, 2), (2, 1, 0), (1, 0, 2)):
+                cases.append({'kind': 'rules', 'file': {'vars': [], 'tfs': [], 'rules': [rs[i] for i in order]},
+                              'txns': [tx('COSTCO GAS #0123 KIRKLAND')]})
+    # corpus: the SAME expression text under different priorities (the ranking is per rule, not per expression), every order
+    for pa, pb in ((None, 60), (60, None), (40, 50), (50, 40)):
+        cases.append({'kind': 'rules', 'file': {'vars': [], 'tfs': [], 'rules': [
+            blk('First', 'contains("COSTCO")', 'Shopping', 'Warehouse', ['a'], pa), blk('Second', 'contains("COSTCO")', 'Bulk', 'Club', ['b'], pb),
+            blk('Third', 'contains("COSTCO") and amount > 0', 'Other', '', [], 10)]}, 'txns': [tx('COSTCO GAS #0123 KIRKLAND')]})
     return cases, rnd
 
 
@@ -230,25 +262,27 @@ def judge_variant(c, jr, req, vr):
             continue
         cat, sub, m = cands(jr, tr)
         a, b = tr['ms'], vt['ms']
-        nm = lambda J, i: None if i is None else J['rules'][i]['name']
+        # a rule's identity = its name AND its position in the BASE file (names may repeat)
+        idb = lambda i: None if i is None else f"{jr['rules'][i]['name']}#{i}"
+        idv = lambda i: None if i is None else f"{vr['rules'][i]['name']}#{req['perm'][i]}"
         free = lambda idxs: len({tup[i] for i in idxs}) == len(idxs) and len({txt[i] for i in idxs}) == len(idxs)
-        if free(cat) and (a['category'], a['matched'], nm(jr, a['matched_rule'])) != (b['category'], b['matched'], nm(vr, b['matched_rule'])):
+        if free(cat) and (a['category'], a['matched'], idb(a['matched_rule'])) != (b['category'], b['matched'], idv(b['matched_rule'])):
             out.append((ti, 'permutation', {'why': 'category changes under a tie-free permutation of the rules', 'perm': req['perm'],
-                                            'base': [a['category'], nm(jr, a['matched_rule'])],
-                                            'permuted': [b['category'], nm(vr, b['matched_rule'])]}, None))
-        if free(sub) and (a['subcategory'], nm(jr, a['subcategory_rule'])) != (b['subcategory'], nm(vr, b['subcategory_rule'])):
+                                            'base': [a['category'], idb(a['matched_rule'])],
+                                            'permuted': [b['category'], idv(b['matched_rule'])]}, None))
+        if free(sub) and (a['subcategory'], idb(a['subcategory_rule'])) != (b['subcategory'], idv(b['subcategory_rule'])):
             out.append((ti, 'permutation', {'why': 'subcategory changes under a tie-free permutation of the rules', 'perm': req['perm'],
-                                            'base': [a['subcategory'], nm(jr, a['subcategory_rule'])],
-                                            'permuted': [b['subcategory'], nm(vr, b['subcategory_rule'])]}, None))
+                                            'base': [a['subcategory'], idb(a['subcategory_rule'])],
+                                            'permuted': [b['subcategory'], idv(b['subcategory_rule'])]}, None))
         if not free(cat) and a['matched_rule'] is not None and b['matched_rule'] is not None:
             # with ties the winner must be the earliest of the maximal ones IN THE PERMUTED ORDER
             pos = {orig: k for k, orig in enumerate(req['perm'])}
             order = sorted(cat, key=lambda i: pos[i])
-            ok_names = {jr['rules'][first_max_index(order, t)]['name'] for t in (tup, txt)}
-            if nm(vr, b['matched_rule']) not in ok_names:
+            ok_names = {idb(first_max_index(order, t)) for t in (tup, txt)}
+            if idv(b['matched_rule']) not in ok_names:
                 out.append((ti, 'permutation', {'why': 'after permuting, the tie did not go to the earlier rule of the permuted file',
                                                 'perm': req['perm'], 'expected': sorted(ok_names),
-                                                'observed': nm(vr, b['matched_rule'])}, None))
+                                                'observed': idv(b['matched_rule'])}, None))
         if set(a['tags']) != set(b['tags']):
             out.append((ti, 'tags', {'why': 'tag set changes under a permutation of the rules', 'perm': req['perm'], 'base': a['tags'],
                                      'permuted': b['tags']}, None))
